@@ -7,6 +7,7 @@ package main
 //   ty     static Go type T of v (names below); value/fallback are typed tokens of that type
 //   value  nil | b:0|1 | i:<n> i8: i16: i32: i64: u: u8: u16: u32: u64: up: | f32:x<bits> f64:x<bits> | s:x<hex>
 //          | st:<k> | sl:nil sl:e sl:<k> | mp:nil mp:<k> | fn:nil fn:<k> | ch:nil ch:<k> | np:<ty> | p(<value>)
+//          | pa(<value>) (pointer to an interface{} variable holding <value>)
 //          | c64:<k> c128:<k> (complex) | ar:<k> ([2]int) | usp:nil usp:<k> (unsafe.Pointer)
 //          | just(<value>) | ja(<value>) | jg(<value>) | none          (nested Maybe values)
 // The Maybe is built once per case; the ops are MaybeDef methods (plus the additional exported methods of the
@@ -95,6 +96,8 @@ func c01TokTy(tok string) string {
 		return "M:any"
 	case strings.HasPrefix(tok, "jg("):
 		return "M:" + c01TokTy(tok[3:len(tok)-1])
+	case strings.HasPrefix(tok, "pa("):
+		return "p:any"
 	case strings.HasPrefix(tok, "p("):
 		return "p:" + c01TokTy(tok[2:len(tok)-1])
 	case strings.HasPrefix(tok, "np:"):
@@ -192,6 +195,14 @@ func init() {
 		}
 		return c01Box(t).(fpgo.MaybeDef[int])
 	})
+	c01Reg[*interface{}]("p:any", func(t string) *interface{} {
+		if strings.HasPrefix(t, "pa(") {
+			x := c01Box(t[3 : len(t)-1])
+			return &x
+		}
+		return nil // np:any
+	})
+	c01RegPtr[*interface{}]("p:any")
 	c01RegPtr[int]("i")
 	c01RegPtr[bool]("b")
 	c01RegPtr[string]("s")
@@ -395,6 +406,8 @@ func c01Exact(tok string, depth int) bool {
 	case strings.HasPrefix(tok, "just(") || strings.HasPrefix(tok, "ja(") || strings.HasPrefix(tok, "jg("):
 		in := tok[strings.Index(tok, "(")+1 : len(tok)-1]
 		return c01Exact(in, depth+1)
+	case strings.HasPrefix(tok, "pa("):
+		return false
 	case strings.HasPrefix(tok, "p("):
 		in := tok[2 : len(tok)-1]
 		if depth > 0 {
@@ -826,6 +839,8 @@ func c01Zoo(rng *rand.Rand, n int) map[string][]string {
 	for _, e := range []string{"i", "b", "s", "f64", "st", "sl", "mp", "ar"} {
 		zoo["p:"+e] = []string{"np:" + e, "p(" + zoo[e][0] + ")", "p(" + pick(e) + ")", "p(" + pick(e) + ")"}
 	}
+	zoo["p:any"] = []string{"np:any", "pa(nil)", "pa(" + pick("i") + ")", "pa(np:i)", "pa(" + pick("st") + ")", "pa(just(i:1))", "pa(p(i:2))"}
+	zoo["p:p:any"] = []string{"np:p:any", "p(np:any)", "p(pa(nil))", "p(pa(" + pick("s") + "))"}
 	zoo["p:p:i"] = []string{"np:p:i", "p(np:i)", "p(p(" + pick("i") + "))"}
 	zoo["p:p:st"] = []string{"np:p:st", "p(np:st)", "p(p(" + pick("st") + "))"}
 	zoo["p:p:p:i"] = []string{"np:p:p:i", "p(np:p:i)", "p(p(np:i))", "p(p(p(" + pick("i") + ")))"}
